@@ -1,6 +1,7 @@
 package harness
 
 import (
+	"runtime/debug"
 	"bufio"
 	"encoding/json"
 	"flag"
@@ -27,6 +28,8 @@ type propMeta struct {
 
 // WorkerMain is the entry point of the vcheck binary.
 func WorkerMain() {
+	// unbounded recursion in the code under test ends in the runtime's fatal "stack overflow" after 128 MB, not 1 GB
+	debug.SetMaxStack(128 << 20)
 	prop := flag.String("prop", "", "property id")
 	tier := flag.String("tier", "quick", "quick | thorough")
 	list := flag.Bool("list", false, "list jobs as JSON")
